@@ -206,6 +206,10 @@ SCENARIOS = [
     # a multi-key mapping assigned over an existing nested dict next to a reader of the whole document (atomic publication)
     ("F2-d-call-setmulti", "C14-F2", "MemoryBufferedJSON", "dict", None, 2, (1, [], "call", []), (0, [], "setitem", ["n", {"p": 117, "q": {"r": 118}, "s": 119}])),
     ("F1-d-call-setmulti", "C14-F1", "JSON", "dict", "none", 1, (0, [], "call", []), (0, [], "setitem", ["n", {"p": 120, "q": {"r": 121}, "s": 122}])),
+    # NOT inside an open finding (private reader object): the objects are constructed while threading support is OFF and it
+    # is switched on before the threads start - the write mode in effect at the save decides; no failing site is expected
+    ("LT-d-call-set", "-", "JSON", "dict", "none", 2, (1, [], "call", []), (0, [], "setitem", ["x", 123])),
+    ("LT-l-len-append", "-", "BufferedJSON", "list", "none", 2, (1, [], "len", []), (0, [], "append", [124])),
 ]
 NSCAN = len(SCENARIOS) * 2 * KMAX
 _known = {}
@@ -229,8 +233,12 @@ def scan_payload(j):
     cfg = {"prop": ID, "family": fam, "kind": kind, "wc": False, "threading": True, "oracles": [], "uuid_seed": 7, "opcode": False}
     init = _thr.init_content(kind, fresh)
     pre = [{"t": "new_res", "family": fam, "kind": kind, "init": init}]
+    if sid.startswith("LT-"):
+        pre.append({"t": "threading", "on": False})
     for _ in range(nobj):
         pre.append({"t": "new_obj", "rid": 0, "wc": False})
+    if sid.startswith("LT-"):
+        pre.append({"t": "threading", "on": True})
     hids = {}
     nxt = nobj
     for o, path, _, _ in (rd, wr):
@@ -309,7 +317,7 @@ def run_one(seed, i, tier):  # noqa: F811
             res["sig"] = digest(list(el))
         else:
             v = dict(v, index=i, replay=payload, bucket=el[:3],
-                     msg=f"[inside the pattern of open finding {payload['finding']}, but NOT one of its listed failing pre-emption sites] scenario {el[0]} "
+                     msg=(f"[inside the pattern of open finding {payload['finding']}, but NOT one of its listed failing pre-emption sites] " if payload["finding"] != "-" else "[single pre-emption scan] ") + f"scenario {el[0]} "
                          f"{el[1]}, first thread pre-empted in {el[2]} after {payload['k']} points: {v['msg'][:700]}")
             res["viol"] = v
     return res
@@ -318,3 +326,4 @@ def run_one(seed, i, tier):  # noqa: F811
 ISOLATE = False   # run_one isolates internally (scan runs and random runs each fork their own child)
 RUNS = {"quick": NSCAN + 8000, "thorough": NSCAN + 300000}
 CHUNK = 200
+WALL_CAP = {"quick": 420, "thorough": 2400}   # (the scan is a fixed enumeration: it must not be cut short on a loaded machine)
